@@ -1,5 +1,8 @@
 use crate::*;
+#[cfg(not(trark_rssl_verif))]
 use std::collections::{HashMap, HashSet};
+#[cfg(trark_rssl_verif)]
+use rssl_text::verif_collections::{HashMap, HashSet};
 
 #[derive(Debug)]
 pub struct GlobalUsageAnalysis(HashMap<UsageSymbol, LocalUsageAnalysis>);
